@@ -16,8 +16,17 @@ func HarnessC01a() {
 	verifAssert("C01.new.err", err == nil)
 	md := &symModel{}
 	probe := symKey{verifNondetKey("probe")}
+	var other *Mast // the handle left behind by the last clone / reload: it must keep its contents
+	var mdOther *symModel
 	for i := 0; i < K; i++ {
+		prev, mdPrev := cur, md.clone()
 		cur, md, _ = applyOps("h", cur, md, cfg, 1, 5)
+		if cur != prev {
+			other, mdOther = prev, mdPrev
+		}
 		checkTree("step", cur, md, probe)
+		if other != nil {
+			checkIterP("C01.left-behind-handle", other, mdOther, probe, false)
+		}
 	}
 }
